@@ -159,6 +159,22 @@ pub async fn run(cx: &mut Ctx) {
             for _ in 0..per_file {
                 positions.push(rng.below(len));
             }
+            // the trailer of the last block / the index footer: extra single-bit flips there
+            for i in 0..per_file * 2 {
+                let back = 1 + rng.below(len.min(24));
+                // odd ones: overwrite with a small value (type / enum fields hold small integers,
+                // another valid value is the interesting corruption there)
+                let small = i % 2 == 1;
+                plan.push(Corruption {
+                    file: f.clone(),
+                    kind: if small { "byte" } else { "flip" }.into(),
+                    pos: len - back,
+                    bit: rng.below(8) as u8,
+                    val: rng.below(20) as u8,
+                    mode: rng.below(3) as u8,
+                    compact_after: false,
+                });
+            }
             for _ in 0..per_file {
                 let pos = positions[rng.usize(positions.len())];
                 // zero-filled sectors are a known finding: kept to a small share of the runs
@@ -190,6 +206,17 @@ pub async fn run(cx: &mut Ctx) {
                             bit,
                             val: 0,
                             mode: (back % 3) as u8,
+                            compact_after: false,
+                        });
+                    }
+                    for val in 0..20u8 {
+                        plan.push(Corruption {
+                            file: f.clone(),
+                            kind: "byte".into(),
+                            pos: len - back,
+                            bit: 0,
+                            val,
+                            mode: (val % 3) as u8,
                             compact_after: false,
                         });
                     }
@@ -289,6 +316,29 @@ pub async fn run(cx: &mut Ctx) {
         if c.compact_after {
             advance(Duration::from_millis(1500)).await;
         }
+        // reading corrupted data may abort the process (e.g. an absurd allocation while
+        // decoding): that is neither an error nor the original rows
+        {
+            let mut pc = cx.case.clone();
+            pc.corruptions = vec![c.clone()];
+            let mut r = RunResult {
+                seed: cx.case.seed,
+                violations: cx.vio.clone(),
+                stats: cx.stats.clone(),
+                ..Default::default()
+            };
+            r.stats.nontrivial = true;
+            r.violations.push(
+                Violation::new(
+                    "C18",
+                    "process-aborted-on-corrupt-data",
+                    Some(ci),
+                    format!("{label}: the process aborted while the corrupted database was being read"),
+                )
+                .pin(pc),
+            );
+            crate::run::set_crumb(Some(&r));
+        }
         // every table, three times (first read and repeated reads)
         let mut detected = false;
         'q: for round in 0..3 {
@@ -332,6 +382,7 @@ pub async fn run(cx: &mut Ctx) {
                 }
             }
         }
+        crate::run::set_crumb(None);
         if detected {
             cx.probe("corruption-detected-by-query");
         } else {
